@@ -34,7 +34,7 @@ let () =
            let sc = { s_has_samples = hs; s_min = z_of_int mins; s_full = z_of_int fulls } in
            let r = integrate1 fops sc per sm wd gd gc in
            Printf.printf "%d %s\n" (List.length r) (hexs r)
-         | "TI1D" ->
+         | "TI1D" | "TI1DG" ->
            let per = nb () in let hs = nb () in
            let mins = ni () in let fulls = ni () in let n = ni () in
            let wd = nf () in
